@@ -327,26 +327,29 @@ def _disjoint_rules(F, r4):
                 if m:
                     nm = m.group(1)
             names[f["name"]] = nm
-        m = H.find_first(h, lambda n: n.get("k") == "match" and n.get("src") == "normal")
-        arms = {}
-        if m:
-            env = H.Env(h)
-            for arm in m["arms"]:
-                key = H.pat_str(arm["pat"])
-                accs = {x.rsplit("::", 1)[-1] for x in H.called_fns(arm["body"])}
-                flds = {o[2] for o in H.origins(arm["body"], env) if o[:2] == ("param", "self") and len(o) > 2}
-                arms[key] = (accs, flds, arm)
+        # evaluated on concrete headers: with exactly member g set, has(name of f) is true iff f == g; an unregistered name is false
+        allf = list(names)
+        bad = 0
         for f, js in names.items():
-            k = repr(js)
-            if k not in arms:
-                r4.fail((fn, "arm", f), "JwtHeader::has has no arm for the header parameter %r (field %s)" % (js, f))
-                continue
-            accs, flds, arm = arms[k]
-            r4.site("has(%r) → %s" % (js, sorted(accs)), arm["body"].get("sp"))
-            r4.require((f in accs or f in flds) and "is_some" in accs, (fn, "arm-body", f), "JwtHeader::has(%r) does not test field `%s` for presence (calls %s)" % (js, f, sorted(accs)))
-        if "_" in arms:
-            lits = H.literals(arms["_"][2]["body"])
-            r4.require(lits == [False], (fn, "default"), "JwtHeader::has default arm is not `false`")
+            for g in allf + [None]:
+                v, why = _eval_bool(F, fn, [_header_value(F, JWTH, {g} if g else set(), "s"), js])
+                if v is None:
+                    r4.fail((fn, "not-evaluable"), "JwtHeader::has could not be evaluated on a concrete header: %s" % why)
+                    bad += 1
+                    break
+                if (g == f) != v:
+                    bad += 1
+                    if g == f:
+                        r4.fail((fn, "arm", f), "JwtHeader::has(%r) is false although the header carries `%s` (parameter %r)" % (js, f, js))
+                    else:
+                        r4.fail((fn, "arm-body", f), "JwtHeader::has(%r) is true on a header that carries only `%s`" % (js, g))
+                    break
+            if bad:
+                break
+            r4.site("has(%r) ⇔ `%s` is set (checked against each of the %d members set alone, and none)" % (js, f, len(allf)))
+        if not bad:
+            v, why = _eval_bool(F, fn, [_header_value(F, JWTH, set(allf), "s"), "x-not-a-registered-name"])
+            r4.require(v is False, (fn, "default"), "JwtHeader::has answers %s for a name that is not a registered header parameter" % v)
     # ---- JwsHeader::is_disjoint on concrete headers: own members (alg, b64), the common JwtHeader members, and the custom maps
     jfields = [f["name"] for f in (F.adt_fields(JWSH) or [])]
     fn = JWSH + "::is_disjoint"
